@@ -79,6 +79,9 @@ pub enum Route {
     /// opened through a URL that names the directory / database RELATIVE to the working directory (which the check
     /// sets to its scratch directory), re-opened through the constructor with the absolute path
     UrlRelative,
+    /// opened through a URL with an explicit `localhost` authority ("file+flate://localhost/abs/dir"), re-opened
+    /// through the constructor with the absolute path: the authority is not part of the location
+    UrlHost,
 }
 
 pub fn backend_url(base: Base, wrap: Wrap, path: &str) -> String {
@@ -119,8 +122,21 @@ fn open_routed(route: Route, nth_open: usize, base: Base, wrap: Wrap, path: &str
             .and_then(|r| r)?;
         return Ok(Arc::new(RwLock::new(inner)));
     }
+    if route == Route::UrlHost && nth_open % 2 == 0 {
+        let suffix = match wrap {
+            Wrap::Plain => "",
+            Wrap::Flate => "+flate",
+            Wrap::Brotli => "+brotli",
+        };
+        let scheme = if base == Base::Dir { "file" } else { "sqlite" };
+        let url = format!("{}{}://localhost{}", scheme, suffix, path);
+        let inner = call("get_adapter", move || melda::adapter::get_adapter(&url).map_err(|e| e.to_string()))
+            .map_err(|p| format!("panic:{}", p))
+            .and_then(|r| r)?;
+        return Ok(Arc::new(RwLock::new(inner)));
+    }
     let url = match route {
-        Route::Direct | Route::UrlRelative => false,
+        Route::Direct | Route::UrlRelative | Route::UrlHost => false,
         Route::Url => true,
         Route::Alternate => nth_open % 2 == 0,
     };
@@ -144,8 +160,10 @@ enum AOp {
 fn keys_universe(thorough: bool) -> Vec<&'static str> {
     // "FFEE.PACK": same letters in another case (a suffix match must be exact);
     // "ffee.pack.old": the suffix inside the name, not at its end (must not be listed under ".pack")
+    // "ab": a key exactly as long as the directory backend's shard prefix (thorough alphabet; the quick tier covers
+    // it in short_key_pass)
     if thorough {
-        vec!["1-aaaa.delta", "1-aabb.delta", "ffee.pack", "ff00.pack", "FFEE.PACK", "ffee.pack.old"]
+        vec!["1-aaaa.delta", "1-aabb.delta", "ffee.pack", "ff00.pack", "FFEE.PACK", "ffee.pack.old", "ab"]
     } else {
         vec!["1-aaaa.delta", "ffee.pack", "FFEE.PACK", "ffee.pack.old"]
     }
@@ -315,6 +333,10 @@ fn adapter_bfs(rep: &mut Report, thorough: bool) {
             if b == Base::SqliteFile && (thorough || w == Wrap::Plain) {
                 backends.push((b, w, Route::UrlRelative));
             }
+            // quick tier: the directory backend under Deflate (a compound scheme); thorough: every persistent combination
+            if persistent(b) && (thorough || (b == Base::Dir && w == Wrap::Flate)) {
+                backends.push((b, w, Route::UrlHost));
+            }
         }
     }
     let mut per_backend = vec![];
@@ -463,6 +485,42 @@ fn large_value_pass(rep: &mut Report) {
     rep.set("large_value_pass", json!({"value_bytes": vals[0].len(), "very_large_value_bytes": huge.len(), "sequences": runs}));
 }
 
+/// keys as short as the directory backend's shard prefix ("ab"), one character longer, and a two-character name
+/// before a suffix: every order of writing two of them, with a reopen in between on persistent backends
+fn short_key_pass(rep: &mut Report) {
+    let keys = ["ab", "abc", "ab.pack", "cd.delta", "a", "a\u{e9}.pack"];
+    let vals = vec![vec![0x7b], b"xy".to_vec()];
+    let mut runs = 0u64;
+    for b in [Base::Memory, Base::Dir, Base::SqliteFile, Base::SqliteMem] {
+        for w in [Wrap::Plain, Wrap::Flate, Wrap::Brotli] {
+            let mut seqs = vec![];
+            for k1 in 0..keys.len() {
+                for k2 in 0..keys.len() {
+                    if k1 == k2 {
+                        continue;
+                    }
+                    if persistent(b) {
+                        seqs.push(vec![AOp::Write(k1, 0), AOp::Reopen, AOp::Write(k2, 1)]);
+                    } else {
+                        seqs.push(vec![AOp::Write(k1, 0), AOp::Write(k2, 1)]);
+                    }
+                }
+            }
+            for s in seqs {
+                runs += 1;
+                match run_seq(b, w, &s, &keys, &vals) {
+                    Ok(n) => rep.add_u64("evaluations", n),
+                    Err(mut d) => {
+                        d["input"] = json!({"backend": format!("{:?}+{:?}", b, w), "operations": seq_text(&s, &keys, &vals)});
+                        rep.violations.push(Violation { property: "C17".into(), signature: format!("C17:{:?}+{:?}:short-key:{}", b, w, d["error"].as_str().unwrap_or("?")), scenario: "short-key".into(), history: vec![], detail: d });
+                    }
+                }
+            }
+        }
+    }
+    rep.set("short_key_pass", json!({"keys": keys, "sequences": runs}));
+}
+
 /// the same replica history over every backend must give the same views
 fn replica_histories(rep: &mut Report, thorough: bool) {
     let m = menu(arr_docs());
@@ -600,6 +658,7 @@ pub fn run(thorough: bool) {
     let mut rep = Report::new("C17", if thorough { "thorough" } else { "quick" }, "model_checking");
     adapter_bfs(&mut rep, thorough);
     large_value_pass(&mut rep);
+    short_key_pass(&mut rep);
     replica_histories(&mut rep, thorough);
     let _ = std::fs::remove_dir_all(scratch());
     rep.set("distinct_nontrivial", rep.coverage.get("states").cloned().unwrap_or(json!(0)));
